@@ -8,7 +8,7 @@
      sig.from_compact bytes              -> OK:<r>;<s>;<hdr>
      sig.recover compact msg hash        -> OK:<pubkey> | OK:E
      sig.recover_digest compact digest   -> OK:<pubkey> | OK:E
-     sig.sign_recover key comp msg hash rk msg2 hash2 -> OK:<pubkey>;<same> | OK:E
+     sig.sign_recover key comp msg hash rk msg2 hash2 -> OK:<same>;<pubkey> | OK:E
      sighashsig.roundtrip r s flag       -> OK:<bytes>;<bytes'>
      sighashsig.parse bytes              -> OK:<bytes'>
    Specification column (Spec/EcdsaSpec.v): round trips give back the same r, s (flag, recovery id, compression marker);
@@ -88,14 +88,14 @@ Definition run_sign_recover (kb : bytes) (c : bool) (msg : bytes) (h : signing_h
                 do back <- from_compact_impl (to_compact_bytes sg None);
                 let own := pk_point (to_public_key FP k) in
                 match get_public_key FP back msg2 h2 with
-                | Ok p => Ok (show_bytes (pk_point p) +++ ";" +++ bit (bytes_eqb (pk_point p) own))
+                | Ok p => Ok (bit (bytes_eqb (pk_point p) own) +++ ";" +++ show_bytes (pk_point p))
                 | Err => Ok "E"
                 | Panic => Panic
                 end))
        (if valid_key kb then
           if bytes_eqb msg msg2 && Bool.eqb (is_double h) (is_double h2) then
-            "OK:" +++ show_bytes (sec1_encode c (pubkey_fast (be_Z kb))) +++ ";1"
-          else "OK:*;0~OK:E"
+            "OK:1;" +++ show_bytes (sec1_encode c (pubkey_fast (be_Z kb)))
+          else "OK:0;*~OK:E"
         else "-") "-".
 
 Definition run_sighashsig_roundtrip (r s : bytes) (f : N) : string :=
